@@ -21,7 +21,8 @@ RULE = ("program p = i // 16 (4-12 executed events, float/int/Duration clocks); 
 ASSUMPTIONS = ["WARN_AND_END / WARN_AND_EXIT are outside the statement",
                "a failing handler raises RuntimeError, KeyError, a BaseException subclass that is not an Exception, or SystemExit",
                "a failing step may return normally or raise a DSOLError that reports the failure; any other escaping exception type is a violation",
-               "'as if the failing handler had returned normally' = the handler's actions before the raise took effect, those after it did not"]
+               "'as if the failing handler had returned normally' = the handler's actions before the raise took effect, those after it did not",
+               "a model-defined event class with its own execute() lets Exception subclasses out unwrapped; aborts that are not Exception subclasses (SystemExit, ...) are wrapped like the library's own execute() does - what an unwrapped one does to the run thread is not judged"]
 
 VARIANTS = 16
 
